@@ -1103,6 +1103,9 @@ def _take_completion(ctx, v, b, e):
                         ct = counter_term(L)
                         if ct and ct[0] == "pre":
                             g = (ct, R, a[4] * sign)
+                        elif L is not None and cas_validated_pre(p, L) is not None:
+                            ce = cas_validated_pre(p, L)
+                            g = (("pre", cell_key(ce.cell), ce.site, "fetch_add", ("const", "usize", "1_usize", 1)), R, a[4] * sign)
             if g is None:
                 probs.append("completion not guarded by an equality on the increment's result")
             else:
@@ -1991,17 +1994,110 @@ def claim_closure_ok(v, eff):
     return okc
 
 
+def cas_claim_path(v, p, arm_uses_cas=False):
+    """A hand-written claim loop on one path: `cur = c.load(); loop { if cur >= max { refuse }; match c.compare_exchange(cur, cur + 1)
+    { Ok(_) => admitted with cur + 1, Err(actual) => cur = actual } }`.  Returns None if neither the path nor its arm has a
+    compare_exchange, else (admitted, problems, cell key).  Every CAS must (a) expect the latest observation of the counter (the
+    initial load, or the value the previous failed CAS handed back), (b) install exactly that observation plus one, (c) be
+    preceded, after that observation was made, by the test `observation < max` with max a factory parameter; a path that does
+    not admit must end on `latest observation >= max` - a failed CAS is an observation, not a refusal."""
+    evs = p.events
+    cas = [(i, ev[1]) for i, ev in enumerate(evs) if ev[0] == "eff" and ev[1].kind == "atomic" and ev[1].op in ("compare_exchange", "compare_exchange_weak")]
+    if not cas and not arm_uses_cas:
+        return None
+    probs = []
+    admitted = False
+    cellk = cell_key(cas[0][1].cell) if cas else None
+    obs = None          # (expr, event index at which it was observed)
+    first = cas[0][0] if cas else len(evs)
+    loads = [(i, ev[1]) for i, ev in enumerate(evs[:first]) if ev[0] == "eff" and ev[1].kind == "atomic" and ev[1].op == "load"
+             and (cellk is None or cell_key(ev[1].cell) == cellk)]
+    if loads:
+        li, le = loads[-1]
+        obs = (("aload", le.cell, le.site), li)
+        cellk = cellk or cell_key(le.cell)
+    for k, (i, e) in enumerate(cas):
+        if cell_key(e.cell) != cellk:
+            probs.append("compare_exchange on two different cells")
+            continue
+        exp = strip_refs(resolve_phis(p, i, e.operand)) if e.operand is not None else None
+        new = resolve_phis(p, i, e.operand2) if e.get("operand2") is not None else None
+        if obs is None or exp is None or exp != obs[0]:
+            probs.append("a compare_exchange does not expect the latest observation of the counter")
+            continue
+        if new is None or lin(new) != (obs[0], 1):
+            probs.append("a compare_exchange does not install its expected value plus one")
+        g = [1 for j, ev in enumerate(evs[:i]) if j > obs[1] and ev[0] == "br" and (lambda a: a[0] == "cmp" and a[1] == obs[0] and a[3] == "<" and a[4] == 0 and is_factory_param(v, a[2]))(norm_pred(ev[1], ev[2]))]
+        if not g:
+            probs.append("a claim is attempted without re-testing the bound on the value it is based on")
+        # the outcome of this very occurrence: the next decision on this CAS's result
+        out = None
+        for j in range(i + 1, len(evs)):
+            ev = evs[j]
+            if ev[0] == "br":
+                a = norm_pred(ev[1], ev[2])
+                if a[0] == "discr" and a[1][0] == "rmw" and a[1][4] == e.site:
+                    out = (a[2], j)
+                    break
+            if ev[0] == "eff" and ev[1].kind == "atomic" and ev[1].site == e.site:
+                break
+        if out is None:
+            if p.end != "cut":
+                probs.append("the result of a compare_exchange is not examined")
+            continue
+        if out[0] == 0:
+            admitted = True
+            if k != len(cas) - 1:
+                probs.append("a second claim after a successful one")
+        else:
+            rm = ("rmw", e.cell, e.op, ("unit",), e.site)
+            obs = (("field", ("downcast", rm, "Err"), 0), out[1])
+    if not admitted and p.end == "return":
+        fin = [1 for j, ev in enumerate(evs) if obs is not None and j > obs[1] and ev[0] == "br" and
+               (lambda a: a[0] == "cmp" and a[1] == obs[0] and a[3] == ">=" and a[4] == 0 and is_factory_param(v, a[2]))(norm_pred(ev[1], ev[2]))]
+        if not fin:
+            probs.append("a lost compare_exchange is treated as a refusal: the delivery is dropped although the bound was not seen reached")
+    return (admitted, probs, cellk)
+
+
+def cas_validated_pre(p, base):
+    """Is `base` an observation of a counter that a successful compare_exchange(base, base + 1) on this path confirmed as the
+    value it replaced?  Then base is the pre-value of a unit increment, exactly like the result of fetch_add(1)."""
+    for i, e in ev_effects(p):
+        if e.kind == "atomic" and e.op in ("compare_exchange", "compare_exchange_weak") and e.operand is not None:
+            exp = strip_refs(resolve_phis(p, i, e.operand))
+            new = resolve_phis(p, i, e.operand2) if e.get("operand2") is not None else None
+            if exp == base and new is not None and lin(new) == (base, 1):
+                ok = [1 for (j, a, _) in guards_before(p, len(p.events)) if a[0] == "discr" and a[1][0] == "rmw" and a[1][4] == e.site and a[2] == 0]
+                if ok:
+                    return e
+    return None
+
+
 def lemma_take_admission(ctx, v, h):
     """GRD-cmp + ATM-no-cta for take's Data arm: the datum is forwarded iff the atomic update of the counter itself admitted it
     (fetch_update whose closure yields Some(t+1) iff t < max, or a comparison `pre < max` on the value an RMW returned)."""
     probs = []
     n = 0
     cellk = None
+    arm_uses_cas = any(e.kind == "atomic" and e.op in ("compare_exchange", "compare_exchange_weak") and "Data" in site_arms(v, h, e) for e in v.all_effects(h))
     for p in live(v, returning(v.arm(h, "Data"))):
         ds = [s for s in send_sig(v, h, "Data", p) if s[0] == "SINK" and s[1] == "Data"]
         if len(ds) > 1:
             probs.append("two data sends on one path")
         admitted = None
+        cc = cas_claim_path(v, p, arm_uses_cas)
+        if cc is not None:
+            admitted, cprobs, cellk = cc
+            probs.extend(cprobs)
+            n += 1
+            if admitted and len(ds) != 1:
+                probs.append("admitted datum not forwarded exactly once")
+            elif not admitted and ds:
+                probs.append("datum forwarded although not admitted")
+            if ds and ds[0][2] != "in":
+                probs.append("forwarded datum is not the incoming one")
+            continue
         for (i, a, ev) in guards_before(p, len(p.events)):
             if a[0] == "discr" and a[1][0] == "rmw" and a[1][2] in ("fetch_update", "compare_exchange", "compare_exchange_weak"):
                 admitted = (a[2] == 0)
@@ -3697,6 +3793,10 @@ def discharge_panic(v, b, var, p, i, e, hint, tbcells):
                 n_sites = len({(x.site) for x, _ in ws})
                 ok = init is not None and init >= 1 and all(x.kind == "atomic" and x.op == "fetch_sub" for x, _ in ws)
                 return ("K-arith", ok, "counter from %s decremented once per member (%d sites): the value returned is >= 1" % (init, n_sites) if ok else "decrement of a counter that may be 0")
+            if base[0] != "param" and inner[1].startswith("Add") and k[0] == "const" and k[3] == 1:
+                lt = [g for (_, g, _) in guards_before(p, i) if g[0] == "cmp" and g[3] == "<" and g[1] == base and g[4] <= 0]
+                if lt:
+                    return ("K-arith", True, "x + 1 behind x < bound on the same value")
             if base[0] == "param" and inner[1].startswith("Add"):
                 lt = [g for (_, g, _) in guards_before(p, i) if g[0] == "cmp" and g[3] == "<" and g[1] == base]
                 if not lt:
@@ -3934,6 +4034,8 @@ def C19(ctx, model, tier, models):
                     continue
                 for (i, a, ev) in guards_before(p, s[4]):
                     if a[0] == "cmp" and counter_term(a[1]) and counter_term(a[1])[0] == "cur" and ck and counter_term(a[1])[1] == ck:
+                        if cas_validated_pre(p, a[1]) is not None:
+                            continue    # the loaded value was confirmed by a successful compare_exchange(v, v + 1) on this path: that CAS decides
                         bad.append("send of %s to the sink is decided by a plain load of the counter" % s[1])
         ctx.ob("ATM-no-cta", v.key(h, "Data", "ATM-no-cta", "counter"), not bad, "no send is decided by a separate load of the counter" if not bad else bad[0], v.loc(h))
         for e, b, arms in terminal_sink_sends(v):
